@@ -75,7 +75,8 @@ def replay_record(rec_ops, pristine, shim_names):
 def run(batch, n_runs, pristine, wall_limit=None, start=0):
     """Runs [start, start+n_runs); fills batch; returns coverage fragment."""
     seed = batch.seed
-    recs = core.parallel_runs(lambda i: one_run(i, seed, pristine), list(range(start, start + n_runs)), wall_limit=wall_limit)
+    stop = core.EarlyStop(lambda r: 'class' in r and 'known' not in r)
+    recs = core.parallel_runs(lambda i: one_run(i, seed, pristine), list(range(start, start + n_runs)), wall_limit=wall_limit, progress=stop)
     hashes, nontrivial = set(), set()
     pairs = set()
     stats = {}
